@@ -1104,9 +1104,11 @@ class HistogramBase(abc.ABC):
             inverse = 1 / other  # Fail (e.g. for zero) before anything is changed
             if other < 0 and not config.free_arithmetics:
                 raise ValueError("Cannot have negative frequencies.")
+            # Calculate (and possibly fail) before anything is changed
+            new_dtype = np.promote_types(self.dtype, np.float64)
+            frequencies = self.frequencies.astype(new_dtype) / other
+            errors2 = self.errors2.astype(new_dtype) / other**2
             self._coerce_dtype(np.float64)
-            frequencies = self.frequencies / other
-            errors2 = self.errors2 / other**2
             self.frequencies = frequencies
             self.errors2 = errors2
             self._missed /= other
